@@ -157,6 +157,18 @@ for _n in (1, 2, 3):
     contract("C13", f"gauss[n={_n}]/affine-map", timeout=180, samples=3, tiers=("quick", "thorough") if _n <= 2 else ("thorough",))(_gauss_affine(_n))
 
 
+def COVERS_STATIC():
+    from cardillo.rods.discretization.gauss import gauss
+
+    return [Mesh1D.__init__, Mesh1D.quadrature_points, Mesh1D.shape_functions, Mesh1D.lagrange_basis1D, gauss]
+
+
+def COVERS_BOUNDED():
+    from cardillo.rods.discretization.gauss import gauss, lobatto
+
+    return [gauss, lobatto, Mesh1D.eval_basis]
+
+
 @static("C13", "Mesh1D/connectivity")
 def s_connectivity(tier):
     """exhaustive: degrees 1..5 x nel 1..12 x both bases x (dim_q, dim_u); coordinate AND velocity meshes"""
